@@ -7,6 +7,8 @@
   * the evaluated set of a valid schema is the union of what its adjacent keywords evaluate and of
     the evaluated sets of the in-place subschemas that are valid (nothing from `not`, nothing from a
     subschema that is invalid); `unevaluated*` apply to the complement;
+  * under draft-07 the keywords later drafts introduced (`minContains`, `maxContains`, `unevaluatedItems`,
+    `unevaluatedProperties`) are unknown keywords: they assert nothing and evaluate nothing (`vocab`);
   * `$ref` goes where `refTarget` says (C03 ties that to RFC 3986 resolution); `$dynamicRef` goes to
     the outermost schema resource of the dynamic scope that declares the dynamic anchor, when the
     initial target carries such an anchor, and to the initial target otherwise.
@@ -289,6 +291,20 @@ def kwUnevaluatedProps (sub : NodeId → Json → Out) (n : Node) (j : Json) (ev
       if allHold rs then some { props := kvs.map (·.1) } else none
   | _, _ => some (some {})
 
+/-! ### the vocabulary of the draft -/
+
+/-- The schema object as a validator of draft `d` reads it.  `minContains`, `maxContains`, `unevaluatedItems` and
+    `unevaluatedProperties` are keywords of 2020-12 only: under draft-07 they are unknown keywords, which a
+    validator ignores — they are absent as far as validity and the evaluated sets go.  (The other keywords whose
+    meaning depends on the draft — `items`, `prefixItems`, `dependencies`, `dependent*` — are dispatched inside
+    their keyword functions, which read the form of their own draft only.) -/
+def vocab (d : Draft) (n : Node) : Node :=
+  { n with
+    minContains := if d == .d7 then none else n.minContains
+    maxContains := if d == .d7 then none else n.maxContains
+    unevaluatedItems := if d == .d7 then none else n.unevaluatedItems
+    unevaluatedProperties := if d == .d7 then none else n.unevaluatedProperties }
+
 /-! ### one schema object -/
 
 def evalStep (env : Env) (rec : Rec) (scope0 : List NodeId) (s : NodeId) (j : Json) : Out :=
@@ -297,6 +313,7 @@ def evalStep (env : Env) (rec : Rec) (scope0 : List NodeId) (s : NodeId) (j : Js
   | some n =>
     let scope := scope0 ++ [s]
     let sub := rec scope
+    let nv := vocab env.draft n          -- draft-07: without the keywords of later drafts
     if env.draft == .d7 && n.ref != "" then
       -- draft-07: every other member of a $ref object is ignored
       (kwRef env sub s n j).map fun r => r.map fun _ => {}
@@ -304,7 +321,7 @@ def evalStep (env : Env) (rec : Rec) (scope0 : List NodeId) (s : NodeId) (j : Js
       let asserts := typeOk n j && enumOk n j && constOk n j && numericOk n j && stringOk env n j &&
                      arrayLimitsOk n j && objectLimitsOk env n j
       match sequence [kwRef env sub s n j, kwDynamicRef env sub scope s n j, kwAllOf sub n j, kwAnyOf sub n j,
-                      kwOneOf sub n j, kwNot sub n j, kwIf sub n j, kwItems env sub n j, kwContains sub n j,
+                      kwOneOf sub n j, kwNot sub n j, kwIf sub n j, kwItems env sub n j, kwContains sub nv j,
                       kwProps env sub n j, kwPropertyNames sub n j, kwDependentSchemas env sub n j] with
       | none => none
       | some rs =>
@@ -313,7 +330,7 @@ def evalStep (env : Env) (rec : Rec) (scope0 : List NodeId) (s : NodeId) (j : Js
         | some ev0 =>
           if !asserts then some none else
           -- unevaluatedItems sees everything but itself; unevaluatedProperties likewise
-          match kwUnevaluatedItems sub n j ev0, kwUnevaluatedProps sub n j ev0 with
+          match kwUnevaluatedItems sub nv j ev0, kwUnevaluatedProps sub nv j ev0 with
           | some ri, some rp => some (conj [some ev0, ri, rp])
           | _, _ => none
 
